@@ -15,6 +15,32 @@ CHECKS = {
         text="Generated-input search: every partial matching on up to 8 (quick) / 11 (thorough) positions is enumerated completely, and thousands of larger knotted structures, 30-level ladders and balanced 30-type strings are drawn by Hypothesis; each produced notation is decoded by an independent 30-stack decoder and compared both ways (lost / invented pairs). Exhaustive below the bound, sampling above it - no proof.",
         note=TRUST + "Structures needing >30 levels are not generated. Exhaustive only for N<=8/11.",
         ref="3 C01"),
+    "C02": dict(
+        technique="exhaustive enumeration of pairings + Hypothesis structures against an independent exact optimiser (differential on scores)",
+        text="Generated-input search: all pairings on <=8/11 positions and thousands of drawn multi-stem knotted structures (incl. path/star conflict graphs); the produced notation's level assignment is read back with an independent stem finder and compared with an exact branch-and-bound optimum by score (never by string), plus properness, greedy stability, >= FCFS and round-brackets-only for knot-free input.",
+        note=TRUST + "Components above 10 stems are not checked for optimality. Only CBC is available as MILP back-end.",
+        ref="3 C02"),
+    "C07": dict(
+        technique="exhaustive enumeration of pairings + Hypothesis structures against a reference decomposition (validity + coverage predicates)",
+        text="Generated-input search over all pairings on <=8/11 positions and drawn structures up to ~150 nt; stems and hairpins are compared as sets with an independent decomposition, loops are checked by a validity predicate (closed cycle, paired ends, unpaired interiors), coverage of every unpaired nucleotide exactly once, and every strand's text against slices.",
+        note=TRUST + "Interior of a strand is defined as its positions other than its paired end nucleotides.",
+        ref="3 C07"),
+    "C12": dict(
+        technique="Hypothesis rule-based state machine: every call history compared step by step with fresh objects + snapshot invariant",
+        text="Stateful generated search: call sequences (<=6 quick / <=8 thorough) over the nine public queries/derivations on a source structure and on objects derived from it; after every step the answer must equal that of a fresh object and every live object must still equal its snapshot; removal semantics come from an independent stem finder / decoder.",
+        note=TRUST + "History length is bounded; solver ties (equal score, lossless) would be tolerated for dot_bracket only.",
+        ref="3 C12"),
+    "C13": dict(
+        level="fault_enumeration",
+        technique="fault injection at the PuLP API boundary: complete configuration x behaviour grid per generated structure + drawn fault sequences, against the lossless/FCFS/optimal oracles",
+        text="For each generated knotted structure the 13-cell grid {HiGHS selected, CBC selected} x {ok, raises PulpSolverError, NotSolved, Infeasible, Unbounded, Undefined} + {no solver} is enumerated completely through both entry points, then a drawn 1-4 step fault sequence runs on one shared solver object. Faults are injected by replacing pulp.HiGHS_CMD / pulp.LpSolverDefault from the harness.",
+        note=TRUST + "HiGHS itself is absent from the sandbox: the 'HiGHS selected' cell is a scripted stand-in, so the selection/fallback logic is exercised, not HiGHS. Only the listed fault behaviours are injected.",
+        ref="3 C13"),
+    "C16": dict(
+        technique="exhaustive enumeration of pairings + Hypothesis structures against an independent enumeration of greedy-stable colourings (set equality)",
+        text="Generated-input search: for all pairings on <=8/11 positions and drawn structures with components of <=6/8 stems, the produced list is compared as a set of per-stem level vectors with the product of all Grundy (greedy-stable) proper colourings computed without permutations; also no repetition, contains optimal and FCFS, singleton for knot-free.",
+        note=TRUST + "Components above 8 stems are outside the property's quantifier and are not generated.",
+        ref="3 C16"),
 }
 
 PENDING_REASON = "check not built yet in this revision of /verif (planned in DESIGN.md section 3); not claimed until it runs quiet on the unchanged tree"
